@@ -279,4 +279,39 @@ example : svar [3, 3] = 0 := by
 
 example : ∀ x : ℝ, (id : ℝ → ℝ) (-x) = -(id x) := fun _ => rfl
 
+/-! ### the documented effective dof is scale-free (the basis of the check's oracle for far-out data, D18) -/
+
+/-- the documented effective degrees of freedom depend on the *ratio* of the two variance terms only:
+    a common factor (the unit of measurement squared) cancels -/
+theorem welchDof_scale (c A B na nb : ℝ) (hc : c ≠ 0) :
+    welchDof (c * A) (c * B) na nb = welchDof A B na nb := by
+  unfold welchDof
+  have e1 : (c * A + c * B) ^ 2 = c ^ 2 * (A + B) ^ 2 := by ring
+  have e2 : (c * A) ^ 2 / (na + 1) + (c * B) ^ 2 / (nb + 1)
+      = c ^ 2 * (A ^ 2 / (na + 1) + B ^ 2 / (nb + 1)) := by ring
+  rw [e1, e2, mul_div_mul_left _ _ (pow_ne_zero 2 hc)]
+
+/-- the scale-free form the check's oracle evaluates: with `r = B / A` (for `A ≠ 0`) -/
+theorem welchDof_ratio (A B na nb : ℝ) (hA : A ≠ 0) :
+    welchDof A B na nb = (1 + B / A) ^ 2 / (1 / (na + 1) + (B / A) ^ 2 / (nb + 1)) - 2 := by
+  have := welchDof_scale A⁻¹ A B na nb (inv_ne_zero hA)
+  rw [← this, inv_mul_cancel₀ hA]
+  unfold welchDof
+  have : A⁻¹ * B = B / A := by rw [div_eq_inv_mul]
+  rw [this]
+  norm_num
+
+/-- … and with `r = A / B` for `B ≠ 0` -/
+theorem welchDof_ratio' (A B na nb : ℝ) (hB : B ≠ 0) :
+    welchDof A B na nb = (A / B + 1) ^ 2 / ((A / B) ^ 2 / (na + 1) + 1 / (nb + 1)) - 2 := by
+  have := welchDof_scale B⁻¹ A B na nb (inv_ne_zero hB)
+  rw [← this, inv_mul_cancel₀ hB]
+  unfold welchDof
+  have : B⁻¹ * A = A / B := by rw [div_eq_inv_mul]
+  rw [this]
+  norm_num
+
+example : welchDof (4 * 3) (4 * 5) 7 9 = welchDof 3 5 7 9 := welchDof_scale 4 3 5 7 9 (by norm_num)
+
+
 end StatsCI.C04
